@@ -13,7 +13,7 @@ BUDGET = {"quick": 45, "thorough": 780}
 RULE = ("worlds with max_recompute in {None,1,2,3,7}, idle stretches, sessions finishing early, all parties; at some "
         "calls the party scribbles over every object it was handed; non-trivial = >=1 timer-only invocation and >=1 "
         "mutation fault; distinct = per-period history signature")
-PROBES = ["aware_start", "aware_start_run_crosses_dst", "timer_only_call", "mutation", "session_finished_early_hidden", "third_period_pilots", "resumed", "paired_run",
+PROBES = ["remaining_amp_periods_checked", "aware_start", "aware_start_run_crosses_dst", "timer_only_call", "mutation", "session_finished_early_hidden", "third_period_pilots", "resumed", "paired_run",
           "arrival_this_period_seen", "departure_this_period_hidden", "infra_seen_after_reconfig", "custom_event_with_builtin", "mutate_then_crash", "scheduler_swapped_in_before_run"]
 FAULT_DIMENSION = ("party mutates handed SessionInfo / InfrastructureInfo / Constraint objects; scheduler crash + rerun; "
                    "operator changes a constraint limit between two periods (the scheduler must see the new, true limits)")
@@ -140,6 +140,14 @@ def check(sc):
                     out.add("C05/session_field", "t=%d session %s field %s seen %r truth %r" % (t, sid, k, x[k], v))
             if not close(x["energy_delivered"], e):
                 out.add("C05/energy_delivered_seen", "t=%d session %s saw %r truth %r" % (t, sid, x["energy_delivered"], e))
+            ra = next((v_ for sid_, st_, v_ in c.get("rem_ap", []) if sid_ == sid and st_ == s["station"]), None)
+            if "rem_ap_error" in c:
+                out.add("C05/remaining_amp_periods", "t=%d interface raised %s" % (t, c["rem_ap_error"]))
+            elif ra is not None:
+                want_ra = (s["energy"] - e) * 1000.0 / st[s["station"]]["voltage"] * 60.0 / period
+                out.probe("remaining_amp_periods_checked")
+                if not close(ra, want_ra, rel=1e-9):
+                    out.add("C05/remaining_amp_periods", "t=%d session %s: interface says %r A*periods remaining, truth %r" % (t, sid, ra, want_ra))
             if x["min0"] != 0 or x["max0"] != float("inf"):
                 out.add("C05/session_bounds", "t=%d session %s min/max %r/%r" % (t, sid, x["min0"], x["max0"]))
         out.probe("departure_this_period_hidden", sum(1 for k, s_ in ev.get(t, []) if k == "Unplug"))
